@@ -510,6 +510,12 @@ fn compare_file(name: &str, file: &[u8], at: usize, fault: Fault, short: bool) -
         if bd.is_some() && bd != sd {
             fail!("C07 {name}: dynamic table differs");
         }
+        // both succeed => identical content, None included (which of the two tables is consulted is part of the answer)
+        if let (Ok(x), Ok(y)) = (b.dynamic(), s.dynamic()) {
+            if x.is_none() != y.is_none() {
+                fail!("C07 {name}: dynamic(): slice answers {} but the stream answers {}", if x.is_none() { "None" } else { "Some" }, if y.is_none() { "None" } else { "Some" });
+            }
+        }
     }
     Ok(())
 }
@@ -692,6 +698,30 @@ fn run_family_c() -> usize {
             }
             n += 1;
         }
+    }
+    // a PT_DYNAMIC segment next to a non-empty section header table that has no SHT_DYNAMIC section (and one that has):
+    // which table dynamic() consults must be the same decision on both sides
+    for with_dyn_section in [false, true] {
+        let mut f = synthetic_gap_file(0, 2);
+        let phoff = f.len();
+        let mut ph = vec![0u8; 56];
+        ph[0..4].copy_from_slice(&2u32.to_le_bytes());
+        ph[8..16].copy_from_slice(&64u64.to_le_bytes());
+        ph[32..40].copy_from_slice(&32u64.to_le_bytes());
+        f.extend_from_slice(&ph);
+        f[32..40].copy_from_slice(&(phoff as u64).to_le_bytes());
+        f[54..56].copy_from_slice(&56u16.to_le_bytes());
+        f[56..58].copy_from_slice(&1u16.to_le_bytes());
+        if with_dyn_section {
+            // retype the symbol table section as SHT_DYNAMIC over its first 16 bytes (entsize 16)
+            let shoff = u64::from_le_bytes(f[40..48].try_into().unwrap()) as usize;
+            f[shoff + 64 + 4..shoff + 64 + 8].copy_from_slice(&6u32.to_le_bytes());
+            f[shoff + 64 + 32..shoff + 64 + 40].copy_from_slice(&16u64.to_le_bytes());
+            f[shoff + 64 + 56..shoff + 64 + 64].copy_from_slice(&16u64.to_le_bytes());
+        }
+        let label = format!("synthetic object with a PT_DYNAMIC segment and a section header table {} SHT_DYNAMIC section", if with_dyn_section { "with a" } else { "without any" });
+        note(compare_file(&label, &f, usize::MAX, Fault::None, false));
+        n += 1;
     }
     for gap in [0usize, 1, 100, 4096] {
         for symtype in [2u32, 11] {
